@@ -3,12 +3,12 @@ import ast
 import re
 import copy
 
-from ..core.loader import AnalysisError, dotted, norm, own_nodes, where, full
+from ..core.loader import AnalysisError, dotted, norm, own_nodes, where, full, enclosing_class
 from ..core import rx
 from ..core.terms import Evaluator, Term
 from ..core.symexec import run_paths, calls_on
 from ..core.consts import NotConst
-from .util import evaluator, path_conds_struct, cond_taken, find_try_handler, raises_in
+from .util import evaluator, path_conds_struct, cond_taken, find_try_handler, raises_in, return_keys
 from .streams import _walk
 
 ST = "smpl_extract/structural.py"
@@ -361,7 +361,58 @@ def _encoding_eq(ctx):
         if not (any(chan_eq.search(f) for f in conj) or any(chan_ne.match(f) for f in false_facts)):
             ok, det = False, "a path answers `equal` without having compared the channel layout"
     ok = ok and n_true >= 1
+    if not ok:
+        # decided on a small model instead: the fields are only compared with each other and with 0/1, so two values per field
+        # (four for the channel count: both sides of `> 1`, twice) show every way the answer can depend on them
+        m_ok, m_det = _encoding_eq_model(ctx, fn)
+        if m_ok:
+            ok, det = True, ""
+        elif m_det:
+            det = det + "; " + m_det
     ctx.ob("P4", fn, "two encodings are equal only if byte order, sample width, signedness and channel layout are all equal", ok, det, inst="encoding-eq")
+
+
+def _encoding_eq_model(ctx, fn):
+    import itertools
+    from .sem import Mini, Sym
+    consts = {n.value for n in ast.walk(fn) if isinstance(n, ast.Constant) and not isinstance(n.value, str)}
+    if not consts <= {0, 1, True, False, None}:
+        return False, "constants other than 0/1 are compared"
+    cls = enclosing_class(fn)
+    prop = next((st for st in cls.body if isinstance(st, ast.FunctionDef) and st.name == "is_interleaved"), None) if cls is not None else None
+    if prop is None or [norm(r.value) for r in own_nodes(prop) if isinstance(r, ast.Return)] not in (["self.num_interleaved_channels > 1"],) and \
+            {k_ for k_ in return_keys(ctx, prop, "P4")} != {"cond(self.num_interleaved_channels - 1 > 0)"} and {k_ for k_ in return_keys(ctx, prop, "P4")} != {"cond(-1 + self.num_interleaved_channels > 0)"}:
+        return False, "is_interleaved is not `num_interleaved_channels > 1`"
+    other = fn.args.args[1].arg
+    n_true = 0
+    dom = list(itertools.product((0, 1), (1, 2), (0, 1), (0, 1, 2, 3)))
+    for a, b in itertools.product(dom, dom):
+        env = {}
+        for who, v in (("self", a), (other, b)):
+            env[f"{who}.endianess"], env[f"{who}.sample_width"], env[f"{who}.is_signed"], env[f"{who}.num_interleaved_channels"] = v
+            env[f"{who}.is_interleaved"] = v[3] > 1
+
+        def special(node, interp):
+            if isinstance(node, ast.Call) and isinstance(node.func, ast.Name) and node.func.id in ("all", "any") and len(node.args) == 1:
+                v_ = interp.ev(node.args[0])
+                if isinstance(v_, (list, tuple)) and all(isinstance(x, bool) for x in v_):
+                    return all(v_) if node.func.id == "all" else any(v_)
+            if isinstance(node, ast.Call) and isinstance(node.func, ast.Name) and node.func.id == "isinstance":
+                return True
+            return None
+
+        mi = Mini(ctx, fn._module, env=env, special=special)
+        r = mi.run(fn.body)
+        if r != "return" or getattr(mi, "undecided", 0):
+            return False, "the comparison could not be followed on the model"
+        v = mi.env.get("<return>")
+        if isinstance(v, Sym) or not isinstance(v, bool):
+            return False, "the comparison could not be followed on the model"
+        same = a[0] == b[0] and a[1] == b[1] and a[2] == b[2] and (a[3] > 1) == (b[3] > 1) and (a[3] <= 1 or a[3] == b[3])
+        if v and not same:
+            return False, f"answers `equal` for (endianess, width, signed, channels) = {a} and {b}"
+        n_true += 1 if v else 0
+    return n_true >= 1, ""
 
 
 def rule_P4(ctx):
@@ -500,8 +551,33 @@ def rule_P4(ctx):
         ok = ".byteswap()" in full(f)
         ctx.ob("P4", f, f"{q} byte-swaps sample values", ok, "", inst=q)
     f = ctx.fn(TR, "swap_endianess_multi", "P4")
-    apps = [c for c in own_nodes(f) if isinstance(c, ast.Call) and norm(c.func) == "result_channels.append"]
-    ok = len(apps) == 2 and sorted(norm(c.args[0]) for c in apps) == ["channel", "channel.byteswap()"]
+    # per pair (channel, flag) of zip(channels, swaps): exactly one entry is added - the byte-swapped copy when the flag is set, the
+    # channel itself otherwise
+    from .util import atomic_facts as _af4
+    loops_ = [l_ for l_ in own_nodes(f) if isinstance(l_, ast.For) and isinstance(l_.target, ast.Tuple) and len(l_.target.elts) == 2
+              and all(isinstance(e_, ast.Name) for e_ in l_.target.elts) and norm(l_.iter) == f"zip({f.args.args[0].arg}, {f.args.args[1].arg})"]
+    ok = len(loops_) == 1
+    if ok:
+        cv, sv = loops_[0].target.elts[0].id, loops_[0].target.elts[1].id
+        cfg4 = ctx.cfg(f, "P4")
+        seen4 = set()
+        for kind, path, edge in cfg4.iteration_paths(cfg4.loop_of(loops_[0])):
+            if kind == "exit" and len(path) == 1:
+                continue
+            if kind != "back":
+                ok = False
+                continue
+            pr = _walk(ctx, f, cfg4, path)
+            facts = dict((c_.replace("~", ""), t_) for c_, t_ in _af4(pr))
+            flag = facts.get(f"truthy({sv})")
+            added = [evaluator(ctx, f, e_).ev(c_.args[0]).key().replace("~", "") for c_, e_, st_ in calls_on(pr) if isinstance(c_.func, ast.Attribute) and c_.func.attr == "append" and len(c_.args) == 1]
+            want4 = [f"({cv}).byteswap()"] if flag is True else ([cv] if flag is False else None)
+            ok = ok and want4 is not None and added == want4
+            seen4.add(flag)
+        ok = ok and seen4 == {True, False}
+        rets4 = [r_ for r_ in own_nodes(f) if isinstance(r_, ast.Return)]
+        apps = [c for c in own_nodes(f) if isinstance(c, ast.Call) and isinstance(c.func, ast.Attribute) and c.func.attr == "append"]
+        ok = ok and len(rets4) == 1 and bool(apps) and all(norm(c.func.value) == norm(rets4[0].value) for c in apps)
     ctx.ob("P4", f, "swap_endianess_multi keeps every channel (swapped or not) in order", ok, "", inst="multi-keeps-all")
 
 
